@@ -47,6 +47,7 @@ CHECKS.update({
     "C01": {
         "text": "Generated problems (all 21 constraint types mixed, shared domains with offsets, repeated variables/domains in a scope, negative and singleton domains) x all solver configurations x every API path "
         "(find_all, solve_all, iterator and prefixes, minimize, maximize, MultiprocessingSolver over split with a drawn delivery schedule); every assignment handed to the caller is evaluated against an independent ground checker. "
+        "Some runs are the second complete search of their solver object (any of find_all / iteration / solve_all / minimise / maximise, then another). "
         "Exploration: the oracle needs no brute force, so it scales to the largest generated problems, in both execution modes.",
         "note": _SOLVER_NOTE,
         "technique": "property-based testing: Hypothesis problems x configurations x API paths vs independent ground-satisfaction oracle (interpreted + compiled)",
